@@ -4,7 +4,7 @@
    Statements only; proofs in C19/Proofs.v; models in C19/Model.v (hand-written
    from quimb/operator/configcore.py, tied by exhaustive correspondence). *)
 From Coq Require Import ZArith List Bool.
-From QV Require Import C19.Model C19.Proofs.
+From QV Require Import C19.Model C19.Proofs C19.SpinHam C19.SpinHamProofs.
 Import ListNotations.
 Open Scope Z_scope.
 
@@ -83,7 +83,50 @@ Theorem C19_u1u1_rank_unrank : forall na ka nb kb r, 0 <= r < binom na ka * bino
 Proof. exact rank_unrank_u1u1. Qed.
 Print Assumptions C19_u1u1_rank_unrank.
 
+(* spin-chain MPO (spin_ham_mpo_tensor / SpinHam1D.build_mpo, open boundary): over every -
+   non-commutative - semiring (product = tensor product of site operators, e = identity of
+   one site) the product of the operator-valued site matrices, with site / bond specific
+   terms taking precedence over the defaults, is the Hamiltonian of the term list: the
+   one-site sums h1_i at site i and, for the bond (i, i+1), sum (f * A) * B with A on site i
+   and B on site i+1.  Model: C19/SpinHam.v, tied to the arrays the code builds by the
+   exact layout correspondence of harness/c19.py. *)
+Theorem C19_spinham_mpo_denotes_hamiltonian :
+  forall (R : Type) (r0 r1 : R) (radd rmul : R -> R -> R), semiring R r0 r1 radd rmul ->
+  forall (e : R) (one : list (R * R)) (two : list (R * R * R))
+         (var1 : list (nat * list (R * R))) (var2 : list (nat * list (R * R * R))) (L : nat),
+  (2 <= L)%nat ->
+  mpo_value R r0 radd rmul e one two var1 var2 L
+  = Some (ham_ref R r0 r1 radd rmul e one two var1 var2 L).
+Proof. exact mpo_denotes_hamiltonian. Qed.
+Print Assumptions C19_spinham_mpo_denotes_hamiltonian.
+
+(* which = 'L' / 'R': the left end is the last row and does not depend on the terms of a bond
+   to its left, the right end is the first column and does not depend on a bond to its right;
+   the array is (|left| + 2) x (|two| + 2) *)
+Theorem C19_spinham_end_tensors :
+  forall (X C : Type) (xzero : X) (xadd : X -> X -> X) (xscale : C -> X -> X) (xid : X)
+         (one : list (C * X)) (two left : list (C * X * X)),
+  tensor_L X (mpo_tensor X C xzero xadd xscale xid one two left)
+    = (onsite X C xzero xadd xscale one :: map (open_slot X C xscale) two) ++ [xid]
+  /\ tensor_R X xzero (mpo_tensor X C xzero xadd xscale xid one two left)
+    = (xid :: map (close_slot X C) left) ++ [onsite X C xzero xadd xscale one]
+  /\ length (mpo_tensor X C xzero xadd xscale xid one two left) = (length left + 2)%nat
+  /\ Forall (fun row => length row = (length two + 2)%nat) (mpo_tensor X C xzero xadd xscale xid one two left).
+Proof. exact end_tensors. Qed.
+Print Assumptions C19_spinham_end_tensors.
+
 (* non-vacuity *)
+(* 2 x 2 integer matrices are a non-commutative semiring; there the MPO of the lone term
+   (1, A, B) on three sites is A B e + e A B, which is not B A e + e B A *)
+Example C19_spinham_example :
+  semiring M2 m2_0 m2_1 m2_add m2_mul
+  /\ let A := (0, 1, 0, 0) in let B := (1, 0, 0, -1) in let e := (2, 0, 0, 3) in
+     mpo_value M2 m2_0 m2_add m2_mul e [] [(m2_1, A, B)] [] [] 3
+       = Some (m2_add (m2_mul (m2_mul A B) e) (m2_mul e (m2_mul A B)))
+     /\ m2_add (m2_mul (m2_mul A B) e) (m2_mul e (m2_mul A B))
+        <> m2_add (m2_mul (m2_mul B A) e) (m2_mul e (m2_mul B A)).
+Proof. split; [exact m2_semiring | vm_compute; split; [reflexivity | discriminate]]. Qed.
+
 Example C19_examples :
   rank_u1 [1;0;1;0] 2 = 4 /\ unrank_u1 4 4 2 = [1;0;1;0] /\ binom 4 2 = 6
   /\ unrank_z2 5 4 1 = [1;0;1;1] /\ rank_z2 [1;0;1;1] = 5
